@@ -39,6 +39,19 @@ def delete_pairing(F):
             if c.get("k") == "MethodCall" and c["method"] == "delete" and (place_path(c["recv"]) or "") == "self.imports" and c["args"]:
                 pat, scr = field_of_pattern_binding(fn["body"], c["args"][0], "import_id")
                 if pat is None:
+                    # `if let Some(id) = self.import_of(x) { self.imports.delete(id) }`: the id is what an (inlined) accessor
+                    # hands out as `Some(<import_id of the element it looked up>)`
+                    a_ = peel(c["args"][0])
+                    if a_.get("k") == "Path" and a_.get("res", {}).get("r") == "local":
+                        p_, s_, _k = binding_site(fn["body"], a_["res"]["hid"])
+                        s_ = peel(s_) if isinstance(s_, dict) else {}
+                        if p_ is not None and any(x.get("variant") == "Some" for x in walk(p_)) and isinstance(s_.get("inlined"), dict):
+                            for sv in walk(s_["inlined"]["body"]):
+                                if sv.get("k") == "Call" and (sv.get("fres") or {}).get("variant") == "Some" and sv.get("args"):
+                                    pat, scr = field_of_pattern_binding(fn["body"], sv["args"][0], "import_id")
+                                    if pat is not None:
+                                        break
+                if pat is None:
                     continue
                 is_import_pat = any(x.get("variant") == "Import" and (x.get("adt") or "").endswith(kind) for x in walk(pat))
                 from_same = any(x.get("k") == "Path" and x.get("res", {}).get("hid") == pid["hid"] for x in walk(scr)) and \
@@ -798,12 +811,40 @@ def resolver_details(F):
     dels = [n for n in walk(rs["body"]) if n.get("k") == "Assign" and peel(n["lhs"]).get("res", {}).get("name") == "delete_block"]
     sets = [n for n in dels if peel(n["rhs"]).get("k") == "Call"]
     clears = [n for n in dels if peel(n["rhs"]).get("res", {}).get("variant") == "None"]
-    ok = len(sets) >= 2 and all(any(x.get("k") == "MethodCall" and x["method"] == "last" and (place_path(x["recv"]) or "") == "block_stack" for x in walk(n["rhs"])) for n in sets) and len(clears) == 1
+    # every place that plans a block alternate records which block is being deleted (the arms for the block openers and for
+    # `else` may be one merged arm or two)
+    from vlib.facts import lca, path_to, sp_before
+    plans = [c for c in walk(rs["body"]) if c.get("k") == "Call" and (c.get("callee") or "").split("::")[-1] == "plan_resolution_block_alt"]
+
+    def near_set(P):
+        for S in sets:
+            l_ = lca(rs["body"], P, S)
+            if l_ is None or not sp_before(P, S):
+                continue
+            pth = path_to(rs["body"], P) or []
+            d_ = next((i for i, (n_, _) in enumerate(pth) if n_ is l_), None)
+            if d_ is not None and len(pth) - d_ <= 10:
+                return True
+        return False
+    ok = len(sets) >= 1 and bool(plans) and all(near_set(P) for P in plans) and \
+        all(any(x.get("k") == "MethodCall" and x["method"] == "last" and (place_path(x["recv"]) or "") == "block_stack" for x in walk(n["rhs"])) for n in sets) and len(clears) == 1
     r.ob(ok, {"delete_block set from block_stack.last()": len(sets), "cleared at": len(clears)})
     if not ok:
         r.violate("%s | delete_block" % rs["path"], F.loc(rs), "delete_block is not set from block_stack.last() / cleared exactly once")
     # the clear is under `(*delete_block_id).eq(&block_id)`
     okc = False
+
+    def cmp_with_popped(e, depth=0):
+        for x in walk(e):
+            if ((x.get("k") == "MethodCall" and x["method"] == "eq") or (x.get("k") == "Binary" and x.get("op") == "==")) and \
+                    any(y.get("k") == "Path" and y.get("res", {}).get("name") == "block_id" for y in walk(x)):
+                return True
+            # a bool local that holds the comparison: `let closes = delete_block_id == block_id; if closes {..}`
+            if depth < 2 and x.get("k") == "Path" and x.get("res", {}).get("r") == "local":
+                for st in walk(rs["body"]):
+                    if st.get("k") == "Let" and st["pat"].get("hid") == x["res"].get("hid") and isinstance(st.get("init"), dict) and cmp_with_popped(st["init"], depth + 1):
+                        return True
+        return False
 
     def rec(node, under):
         nonlocal okc
@@ -815,22 +856,20 @@ def resolver_details(F):
             return
         if node.get("k") == "If":
             c = node["cond"]
-            def cmp_with_popped(e, depth=0):
-                for x in walk(e):
-                    if ((x.get("k") == "MethodCall" and x["method"] == "eq") or (x.get("k") == "Binary" and x.get("op") == "==")) and \
-                            any(y.get("k") == "Path" and y.get("res", {}).get("name") == "block_id" for y in walk(x)):
-                        return True
-                    # a bool local that holds the comparison: `let closes = delete_block_id == block_id; if closes {..}`
-                    if depth < 2 and x.get("k") == "Path" and x.get("res", {}).get("r") == "local":
-                        for st in walk(rs["body"]):
-                            if st.get("k") == "Let" and st["pat"].get("hid") == x["res"].get("hid") and isinstance(st.get("init"), dict) and cmp_with_popped(st["init"], depth + 1):
-                                return True
-                return False
             u = under or cmp_with_popped(c)
             rec(node["cond"], under)
             rec(node["then"], u)
             if "else" in node:
                 rec(node["else"], under)
+            return
+        if node.get("k") == "Match" and node.get("src") not in ("ForLoopDesugar", "TryDesugar"):
+            # `match delete_block { Some(id) if id == block_id => { delete_block = None; .. } .. }`: the arm's guard is the test
+            rec(node.get("scrut"), under)
+            for arm_ in node["arms"]:
+                u_ = under or ("guard" in arm_ and cmp_with_popped(arm_["guard"]))
+                if "guard" in arm_:
+                    rec(arm_["guard"], under)
+                rec(arm_["body"], u_)
             return
         if clears and node is clears[0] and under:
             okc = True
@@ -902,9 +941,24 @@ def resolver_details(F):
                 return "SAVE_PLAIN"
         return None
     branch_ops = sorted(v for v, vd in F.variants(OPA).items() if any(f_["name"] in ("relative_depth", "targets") for f_ in vd["fields"]))
+    def _chains_once(e, depth=0):
+        for x in walk(e):
+            if x.get("k") == "MethodCall" and x["method"] == "chain" and x.get("args") and \
+                    any(y.get("k") == "Call" and (y.get("callee") or "").endswith("iter::once") for y in walk(x["args"][0])):
+                return True
+            if depth < 2 and x.get("k") == "Path" and x.get("res", {}).get("r") == "local":
+                _p, init_, _k = binding_site(ps_fn["body"], x["res"]["hid"])
+                if init_ is not None and _chains_once(init_, depth + 1):
+                    return True
+        return False
+    nonempty_loop = any(m_.get("k") == "Match" and m_.get("src") == "ForLoopDesugar" and _chains_once(m_["scrut"]) for m_ in walk(ps_fn["body"]))
     for v_ in branch_ops + ["Block", "Loop", "If", "Else"]:
         dec, sel, _val = variant_case(F, ps_fn, subj_ps, OPA, v_)
         evs = {ev for ev, st_ in paths(ps_fn["body"], cl_ps, decide_if=dec, select_arms=sel) if st_ in ("fall", "ret")}
+        if nonempty_loop:
+            # `for t in targets.chain(once(default)) { save(..) }` runs at least once: the zero-iteration twin of a path that
+            # saves in the loop is not a path of the program
+            evs = {ev for ev in evs if not any(ev2 != ev and ev2[:len(ev)] == ev and set(ev2[len(ev):]) <= {"SAVE_FLAGGED", "SAVE_PLAIN"} for ev2 in evs)}
         if v_ in ("Block", "Loop", "If", "Else"):
             ok = bool(evs) and all(ev.count("SAVE_PLAIN") >= 1 for ev in evs)
         else:
@@ -933,11 +987,48 @@ def scoped_pending(F, parts=("containers",)):
         if st.get("k") == "Let" and st["pat"].get("k") == "Binding" and st["pat"]["name"].startswith("resolve_on"):
             conts[st["pat"]["name"]] = st["pat"].get("ty", "")
     r.count("pending_containers", len(conts))
+    # `for pending in [&mut resolve_on_else_or_end, &mut resolve_on_end] { pending.remove(&block_id) .. }`: the loop variable
+    # stands for each listed container in turn — hid of the variable → (container names, loop node, per-element body)
+    alias = {}
+    for m in walk(rs["body"]):
+        if not (m.get("k") == "Match" and m.get("src") == "ForLoopDesugar"):
+            continue
+        lits = [x for x in walk(m["scrut"]) if x.get("k") == "Array"]
+        if not lits:
+            continue
+        names_ = []
+        for el in lits[0].get("elems", []):
+            e_ = peel(el)
+            while isinstance(e_, dict) and e_.get("k") == "AddrOf":
+                e_ = peel(e_["a"])
+            if isinstance(e_, dict) and e_.get("k") == "Path" and e_.get("res", {}).get("name") in conts:
+                names_.append(e_["res"]["name"])
+            else:
+                names_ = None
+                break
+        if not names_:
+            continue
+        for lp in walk(m["arms"][0]["body"]):
+            if lp.get("k") == "Match" and lp is not m:
+                for arm_ in lp["arms"]:
+                    p_ = arm_["pat"]
+                    if p_.get("variant") == "Some":
+                        inner = p_["pats"][0] if p_.get("pats") else p_["fields"][0][1]
+                        if inner.get("k") == "Binding":
+                            alias[inner["hid"]] = (names_, m, arm_["body"])
+                break
+
+    def on_container(n, name):
+        """is `n` a method call on container `name`, directly or through a loop variable standing for it?"""
+        if (place_path(n["recv"]) or "") == name:
+            return True
+        rv = peel(n["recv"])
+        return rv.get("k") == "Path" and rv.get("res", {}).get("hid") in alias and name in alias[rv["res"]["hid"]][0]
     for name, ty in sorted(conts.items()):
         keyed_by_block = ty.replace("std::collections::", "").startswith("HashMap<u32")
         # wholesale consumption: `for .. in X.iter()` + `X.clear()`
-        whole = any(n.get("k") == "MethodCall" and n["method"] == "clear" and (place_path(n["recv"]) or "") == name for n in walk(rs["body"]))
-        by_key = any(n.get("k") == "MethodCall" and n["method"] in ("remove", "get", "get_mut") and (place_path(n["recv"]) or "") == name for n in walk(rs["body"]))
+        whole = any(n.get("k") == "MethodCall" and n["method"] == "clear" and on_container(n, name) for n in walk(rs["body"]))
+        by_key = any(n.get("k") == "MethodCall" and n["method"] in ("remove", "get", "get_mut") and on_container(n, name) for n in walk(rs["body"]))
         ok = keyed_by_block and by_key and not whole
         r.ob(ok, {"container": name, "keyed by block id": keyed_by_block, "consumed by key": by_key, "cleared wholesale": whole})
         if not ok:
@@ -959,11 +1050,17 @@ def scoped_pending(F, parts=("containers",)):
             raise CheckError("resolve_special_instrumentation: expected one `Operator::End` arm in the driver match, found %d" % len(end_arms))
         arm = end_arms[0]
         for name in sorted(conts):
-            rms = [n for n in walk(arm["body"]) if n.get("k") == "MethodCall" and n["method"] == "remove" and (place_path(n["recv"]) or "") == name]
+            rms = [n for n in walk(arm["body"]) if n.get("k") == "MethodCall" and n["method"] == "remove" and on_container(n, name)]
             ok = False
             why = "is not drained (no %s.remove(block_id)) in the End arm" % name
             for rm in rms:
-                conds = [c for c in conditional_ancestors(arm["body"], rm) or []]
+                rv_ = peel(rm["recv"])
+                if rv_.get("k") == "Path" and rv_.get("res", {}).get("hid") in alias:
+                    # through the loop variable: conditions inside one pass of the loop, plus those the loop itself sits under
+                    _nm, loop_m, per_elem = alias[rv_["res"]["hid"]]
+                    conds = [c for c in (conditional_ancestors(per_elem, rm) or [])] + [c for c in (conditional_ancestors(arm["body"], loop_m) or [])]
+                else:
+                    conds = [c for c in conditional_ancestors(arm["body"], rm) or []]
                 # allowed: the `if let Some(block_id) = block_stack.pop()` frame and early-`continue` delete_block handling precede it
                 bad = [c for c in conds if not (c.get("k") == "If" and any(x.get("k") == "MethodCall" and x["method"] == "pop" for x in walk(c["cond"])))]
                 if not bad:
@@ -977,11 +1074,37 @@ def scoped_pending(F, parts=("containers",)):
     # replaced by a block alt still ends the then-arm: its exit probe belongs where the else stood)
     if "containers" in parts:
         else_arms = []
+        merged_else = []
+        from vlib.facts import sp_before
         for m in walk(rs["body"]):
             if m.get("k") == "Match" and "Operator" in (m.get("scrut_ty") or ""):
                 for arm in m["arms"]:
-                    if {v for _, v in pat_variants(arm["pat"])[0]} == {"Else"}:
+                    vs_ = {v for _, v in pat_variants(arm["pat"])[0]}
+                    if peel(arm["body"]).get("k") == "Lit":
+                        continue        # `matches!(op, Operator::Else)` desugars to a two-arm match with literal bodies
+                    if vs_ == {"Else"}:
                         else_arms.append(arm)
+                    elif "Else" in vs_:
+                        merged_else.append(arm)
+        if not else_arms and merged_else:
+            # one arm for the block openers *and* `else`: the part that runs for an else is the branch under the test
+            # `matches!(op, Else)`; the drain must sit there, before anything in the arm that can `continue`
+            arm = merged_else[0]
+            rms = [n for n in walk(arm["body"]) if n.get("k") == "MethodCall" and n["method"] == "remove" and (place_path(n["recv"]) or "") == "resolve_on_else_or_end"]
+            okm = False
+            if rms:
+                conds_ = [c for c in (conditional_ancestors(arm["body"], rms[0]) or []) if c.get("k") in ("If", "Match")]
+                only_else_test = all(c.get("k") == "If" and any(x.get("k") == "Match" and any(v == "Else" for a_ in x["arms"] for _, v in pat_variants(a_["pat"])[0]) for x in walk(c["cond"])) or
+                                     (c.get("k") == "If" and any(x.get("k") == "LetExpr" for x in walk(c["cond"])) and any(y is rms[0] for y in walk(c["cond"])))
+                                     for c in conds_)
+                early = [x for x in walk(arm["body"]) if x.get("k") == "Continue" and sp_before(x, rms[0])]
+                okm = only_else_test and not early
+            if not rms:
+                r.undecided("the driver handles `else` in an arm shared with the block openers and the drain of resolve_on_else_or_end was not found there")
+            else:
+                r.ob(okm, {"else (merged arm) drains resolve_on_else_or_end first": okm})
+                if not okm:
+                    r.violate("%s | else drain order" % rs["path"], F.loc(rs, arm), "at an `else`, the bodies waiting for it (the if's block-exit probe) are resolved only after code that can `continue`: when the else is replaced by a block alt they are emitted at the later `end`, after the replacement")
         for arm in else_arms[:1]:
             rms = [n for n in walk(arm["body"]) if n.get("k") == "MethodCall" and n["method"] == "remove" and (place_path(n["recv"]) or "") == "resolve_on_else_or_end"]
             ok = bool(rms) and every_iteration(arm["body"], rms[0])[0]
